@@ -35,8 +35,8 @@ def main(argv=None):
             res = mod.replay(data["case"])
             if res:
                 print("VIOLATION property={} replay={}".format(pid, os.path.abspath(a.replay)))
-                print("  bucket: {}".format(res[0]))
-                print("  detail: {}".format(str(res[1])[:1000]))
+                print("  bucket: {}".format(str(res[0]).encode("utf-8", "backslashreplace").decode("utf-8")))
+                print("  detail: {}".format(str(res[1])[:1000].encode("utf-8", "backslashreplace").decode("utf-8")))
                 return 1
             print("{} replay {}: property holds on this case".format(pid, a.replay))
             return 0
